@@ -20,6 +20,7 @@ pub struct DocCfg {
     pub kinds: bool,     // flattened keys may disappear / change kind
     pub nested: bool,    // nested sub arrays and meta objects
     pub bang_ids: bool,  // identifiers starting with '!' (legal per C04)
+    pub root_ids: bool,  // the root object may carry its own `_id` (and change it)
 }
 
 impl DocCfg {
@@ -32,6 +33,7 @@ impl DocCfg {
             kinds: rng.chance(1, 2),
             nested: rng.chance(1, 2),
             bang_ids: false,
+            root_ids: false,
         }
     }
 }
@@ -237,6 +239,16 @@ fn arrays_in<'a>(doc: &'a mut Value) -> Vec<&'a mut Vec<Value>> {
 }
 
 fn try_mutate(rng: &mut Rng, cfg: &DocCfg, doc: &mut Value) -> Option<&'static str> {
+    if cfg.root_ids && rng.chance(1, 6) {
+        // the document is re-rooted: another root identifier, or back to the default root
+        let o = doc.as_object_mut()?;
+        if rng.chance(1, 3) {
+            o.remove("_id");
+        } else {
+            o.insert("_id".to_string(), Value::from(*rng.pick(&["myroot", "r2", crate::refstore::ROOT])));
+        }
+        return Some("root-id");
+    }
     let w = [8u32, 10, 8, 6, 6, 8, 5, 3, 3, 4, 4, 3, 3];
     match rng.weighted(&w) {
         0 => {
